@@ -99,8 +99,49 @@ class _GetattrSelf(ast.NodeTransformer):
         return node
 
 
+def _local_const_dict(name, host):
+    """[(key Constant, value expr)] of a local bound exactly once to a dict display with constant string keys and call-free values,
+    never modified or rebound afterwards; else None."""
+    stores = [x for x in ast.walk(host) if isinstance(x, ast.Name) and x.id == name and isinstance(x.ctx, (ast.Store, ast.Del))]
+    if len(stores) != 1:
+        return None
+    defs = [a for a in ast.walk(host) if isinstance(a, ast.Assign) and len(a.targets) == 1 and a.targets[0] is stores[0]]
+    if not defs or not isinstance(defs[0].value, ast.Dict):
+        return None
+    v = defs[0].value
+    if len(v.keys) > 64 or any(k is None or not (isinstance(k, ast.Constant) and isinstance(k.value, str)) for k in v.keys):
+        return None
+    if any(isinstance(x, (ast.Call, ast.Yield, ast.YieldFrom, ast.Await, ast.NamedExpr, ast.Lambda)) for e in v.values for x in ast.walk(e)):
+        return None
+    for x in ast.walk(host):
+        if isinstance(x, ast.Subscript) and isinstance(x.ctx, (ast.Store, ast.Del)) and isinstance(x.value, ast.Name) and x.value.id == name:
+            return None
+        if isinstance(x, ast.Call) and isinstance(x.func, ast.Attribute) and isinstance(x.func.value, ast.Name) and x.func.value.id == name \
+                and x.func.attr in ("update", "pop", "setdefault", "clear", "popitem", "__setitem__", "__delitem__"):
+            return None
+    # the names the values read must not be rebound between the display and the end of the function (values are substituted at the use)
+    read = set(x.id for e in v.values for x in ast.walk(e) if isinstance(x, ast.Name))
+    for x in ast.walk(host):
+        if isinstance(x, ast.Name) and isinstance(x.ctx, (ast.Store, ast.Del)) and x.id in read and getattr(x, "lineno", 0) >= defs[0].lineno:
+            return None
+    return list(zip(v.keys, v.values))
+
+
 def _literal_table(it, host, consts=None):
-    """The literal table a ``for`` iterates (inline, a local bound exactly once to a literal, or a module-level constant), or None."""
+    """The literal table a ``for`` iterates (inline, a local bound exactly once to a literal, or a module-level constant), or None.
+    ``D.items()`` / ``D`` / ``D.keys()`` of a local dict display with constant keys that is bound once and never modified gives rows
+    [key, value expression] / key (value expressions without calls only: substituting them is behaviour-preserving for the view)."""
+    if isinstance(it, ast.Call) and isinstance(it.func, ast.Attribute) and it.func.attr in ("items", "keys") and not it.args and isinstance(it.func.value, ast.Name):
+        d = _local_const_dict(it.func.value.id, host)
+        if d is None:
+            return None
+        if it.func.attr == "keys":
+            return [k for k, _ in d]
+        return [[k, v] for k, v in d]
+    if isinstance(it, ast.Name):
+        d = _local_const_dict(it.id, host)
+        if d is not None:
+            return [k for k, _ in d]
     if isinstance(it, ast.Name):
         stores = [x for x in ast.walk(host) if isinstance(x, ast.Name) and x.id == it.id and isinstance(x.ctx, (ast.Store, ast.Del))]
         if not stores and consts is not None and consts.get(it.id) is not None:
